@@ -7,7 +7,7 @@ FETCH_MAX = "tough::fetch::fetch_max_size"
 
 
 def run(chk, prog):
-    chk.rules_live = ["R1", "R2", "R3", "R4", "R5"]
+    chk.rules_live = ["R1", "R2", "R3", "R4", "R5", "R6"]
     chk.explanation = (
         "Dominance rules over the MIR of load_root: the shipped root is self-verified before any "
         "fetch; the assignment that adopts a fetched root is dominated by the Ok edges of "
@@ -16,7 +16,10 @@ def run(chk, prog):
         "left normally only on fetch error / FileNotFound / equal version, every other failure "
         "returns Err; the function returns the loop variable; the file requested is "
         "<current version + 1>.root.json; Repository::load hands load_root's result to "
-        "load_timestamp/snapshot/targets.")
+        "load_timestamp/snapshot/targets. R6: the verifier both signature rules rely on, "
+        "Root::verify_role, satisfies C01's verifier obligations (threshold of DISTINCT authorised "
+        "keys over the canonical form) — re-evaluated here because a chain is only 'doubly signed' "
+        "if the verifier counts keys correctly.")
     chk.not_decided = ["transport behaviour", "that versions advance by exactly one (the property requires only 'higher')"]
     chk.assumptions = ["NonZeroU64 ordering"]
     ctx = async_body(prog, "tough::load_root")
@@ -128,6 +131,9 @@ def run(chk, prog):
                 % sorted(map(repr, ret)))
     r5_name(chk, ctx, docs)
     r4_load(chk, prog)
+    from .c06 import SubCheck
+    from . import c01
+    c01.verifier(SubCheck(chk, "R6"), prog, ROOT_VERIFY, "root")
 
 
 def r3_exits(chk, ctx, abb, eq_break):
